@@ -674,7 +674,8 @@ def gen_bodies(src, group='enc'):
     (BodiesFold.lean), text = split_on_unescaped_comma (BodiesText.lean), alarm = AlarmTime / Alarms of alarms.py and
     tools.is_date / is_datetime (BodiesAlarm.lean), walk = Component._walk / walk (BodiesWalk.lean), ser =
     Component.property_items (BodiesSer.lean), cdict = the delegating methods of CaselessDict (BodiesCDict.lean), se = Event.end / Todo.end and
-    tools.is_date on the values of Model/StartEnd (BodiesSE.lean), parse = Component.from_ical (BodiesParse.lean), recur = vRecur.parse_type / from_ical / to_ical (BodiesRecur.lean), add = Component.add (BodiesAdd.lean);
+    tools.is_date on the values of Model/StartEnd (BodiesSE.lean), parse = Component.from_ical (BodiesParse.lean), recur = vRecur.parse_type / from_ical / to_ical (BodiesRecur.lean), add = Component.add / _encode / vDDDLists.__init__ (BodiesAdd.lean), cdmeta = CaselessDict.__ne__ / __eq__ /
+    sorted_keys / sorted_items (BodiesCDictMeta.lean);
     one generated file each, so that a failure breaks the tie
     only of the properties whose Lean modules import that file"""
     import py2lean
@@ -740,13 +741,17 @@ def gen_bodies_add(src):
     return gen_bodies(src, 'add')
 
 
+def gen_bodies_cdmeta(src):
+    return gen_bodies(src, 'cdmeta')
+
+
 # ---------------------------------------------------------------- driver
 
 GENERATORS = [('Parser.lean', gen_parser), ('Cal.lean', gen_cal), ('Prop.lean', gen_prop), (None, gen_misc),
               ('Bodies.lean', gen_bodies), ('BodiesDec.lean', gen_bodies_dec), ('BodiesParser.lean', gen_bodies_parser),
               ('BodiesLine.lean', gen_bodies_line), ('BodiesFold.lean', gen_bodies_fold), ('BodiesText.lean', gen_bodies_text),
               ('BodiesAlarm.lean', gen_bodies_alarm), ('BodiesWalk.lean', gen_bodies_walk), ('BodiesSer.lean', gen_bodies_ser),
-              ('BodiesCDict.lean', gen_bodies_cdict), ('BodiesSE.lean', gen_bodies_se), ('BodiesParse.lean', gen_bodies_parse), ('BodiesRecur.lean', gen_bodies_recur), ('BodiesAdd.lean', gen_bodies_add)]
+              ('BodiesCDict.lean', gen_bodies_cdict), ('BodiesSE.lean', gen_bodies_se), ('BodiesParse.lean', gen_bodies_parse), ('BodiesRecur.lean', gen_bodies_recur), ('BodiesAdd.lean', gen_bodies_add), ('BodiesCDictMeta.lean', gen_bodies_cdmeta)]
 
 
 def write_if_changed(path, content):
